@@ -18,29 +18,39 @@ class Connect(Contract):
     fn = "gfapy/line/common/connection.py::Connection.connect"
     props = ("C08", "C09", "C02")
     fragment = "H"
-    doc = ("connect(gfa): a line already connected, or one that refers to its own identifier, is refused before anything is touched; the duplicate "
+    doc = ("connect(gfa): a line already connected, one that refers to its own identifier, or one whose identifier is known as a placeholder of another record type, is refused before anything is touched; the duplicate "
            "search precedes every write; a duplicate is handed to _substitute_virtual_line (virtual) or _process_not_unique (real) and nothing "
            "else is done here; otherwise the owner is set, the references are initialised and only then the line is registered - exactly once; "
-           "if the initialisation raises, the four take-back helpers run, the owner is reset to None, every virtual line of the Gfa left without "
-           "references is disconnected (loop invariant), the line is NOT registered and the same exception propagates")
+           "if the initialisation raises, the four take-back helpers run, the owner is reset to None, the line is NOT registered and the same "
+           "exception propagates; of the other lines of the Gfa only virtual lines registered DURING this call (the log opened by the outermost "
+           "connect) may be disconnected - nothing that existed before is touched (loop invariant); the log is closed again on every exit of the "
+           "connect that opened it and left alone by a nested connect")
 
     def cases(self, ctx):
         g = ctx.gfapy
         connected, selfref, dup, dup_virtual, init_ok = z3.Bool("already_connected"), z3.Bool("refers_to_own_name"), z3.Bool("duplicate_found"), z3.Bool("duplicate_is_virtual"), z3.Bool("references_can_be_initialised")
-        n = z3.Int("n_lines")
-        h0 = {"virtual": z3.Const("virtual", AIB), "has_refs": z3.Const("has_refs", AIB), "disconnected": z3.Const("disconnected", AIB)}
-        k, j = z3.Int("k"), z3.Int("j")
-        lines = SList(n, z3.Lambda([k], k), lambda t: Ref(t, g.Line))
+        outer = z3.Bool("no_other_line_is_being_connected")
+        same_type = z3.Bool("placeholder_has_the_same_record_type")
+        n = z3.Int("n_new_virtual_lines")
+        h0 = {"vl_connected": z3.Const("vl_connected", AIB), "has_refs": z3.Const("has_refs", AIB), "disconnected": z3.Const("disconnected", AIB)}
+        k, j, t = z3.Int("k"), z3.Int("j"), z3.Int("t")
+        log_el = z3.Const("new_virtual_line", AII)
+        log = SList(n, log_el, lambda x: Ref(x, g.Line))
         s = Obj(g.Line, "line")
         gfa = Obj(g.Gfa, "gfa")
         prev = Obj(g.Line, "previous")
-        heap = {s.oid: {"_gfa": None}, gfa.oid: {"lines": lines}, prev.oid: {"virtual": dup_virtual}}
+        prior = Obj(None, "log_of_the_enclosing_connect")
+        heap = {s.oid: {"_gfa": None}, gfa.oid: {"_new_virtual_lines": Opt(outer, prior)}, prev.oid: {"virtual": dup_virtual}, prior.oid: {}}
         def simple(name, result=None):
             def m(E, st, pos, kw):
                 yield ("val", result, [], ev(st, name))
             return m
         def m_is_connected(E, st, pos, kw):
-            yield ("val", connected, [], ev(st, "is_connected"))
+            (self_,) = pos
+            if isinstance(self_, Ref):
+                yield ("val", st.zh["vl_connected"][self_.t], [])
+            else:
+                yield ("val", connected, [], ev(st, "is_connected"))
         def m_selfref(E, st, pos, kw):
             yield ("raise", Exc(g.NotUniqueError), [selfref], ev(st, "selfref_check"))
             yield ("val", None, [z3.Not(selfref)], ev(st, "selfref_check"))
@@ -48,8 +58,14 @@ class Connect(Contract):
             yield ("val", prev, [dup], ev(st, "search"))
             yield ("val", None, [z3.Not(dup)], ev(st, "search"))
         def m_init(E, st, pos, kw):
-            yield ("raise", Exc(g.NotFoundError), [z3.Not(init_ok)], ev(st, "init_failed"))
-            yield ("val", None, [init_ok], ev(st, "init"))
+            # while the references are set up, virtual lines may be registered: they are appended to the log iff a log is open
+            cur = st.attrs(gfa).get("_new_virtual_lines")
+            st2 = st.setattr(gfa, "_new_virtual_lines", log) if isinstance(cur, list) else st
+            yield ("raise", Exc(g.NotFoundError), [z3.Not(init_ok)], ev(st2, "init_failed"))
+            yield ("val", None, [init_ok], ev(st2, "init"))
+        def m_record_type(E, st, pos, kw):
+            (self_,) = pos
+            yield ("val", "S" if self_ is s else ite_str(same_type, "S", "E"), [])
         def m_all_refs(E, st, pos, kw):
             (self_,) = pos
             yield ("val", st.zh["has_refs"][self_.t], [])
@@ -57,6 +73,9 @@ class Connect(Contract):
             (self_,) = pos
             zh = dict(st.zh)
             zh["disconnected"] = z3.Store(zh["disconnected"], self_.t, z3.BoolVal(True))
+            # disconnecting a placeholder removes its back-references from other lines and may leave them unreferenced
+            zh["has_refs"] = fresh("has_refs_after", AIB)
+            zh["vl_connected"] = z3.Store(zh["vl_connected"], self_.t, z3.BoolVal(False))
             yield ("val", None, [], st.with_zh(zh))
         f = ctx.fn
         C = "gfapy/line/common/connection.py::Connection."
@@ -69,34 +88,46 @@ class Connect(Contract):
                   f(D + "_remove_field_backreferences"): simple("undo1"), f(D + "_remove_field_references"): simple("undo2"),
                   f(D + "_remove_nonfield_backreferences"): simple("undo3"), f(D + "_remove_nonfield_references"): simple("undo4"),
                   f("gfapy/lines/creators.py::Creators._register_line"): simple("register"),
-                  g.Line.all_references.fget: m_all_refs, f(D + "disconnect"): m_disconnect}
-        def cleaned(zh, upto):
-            return z3.ForAll([j], zh["disconnected"][j] == z3.Or(h0["disconnected"][j], z3.And(0 <= j, j < upto, h0["virtual"][j], z3.Not(h0["has_refs"][j]))))
+                  g.Line.all_references.fget: m_all_refs, g.Line.record_type.fget: m_record_type, f(D + "disconnect"): m_disconnect}
+        def in_log(x):
+            return z3.Exists([j], z3.And(0 <= j, j < n, log_el[j] == x))
+        def only_log_touched(zh):
+            return z3.ForAll([t], z3.Implies(zh["disconnected"][t] != h0["disconnected"][t], in_log(t)))
         def inv0(i, st):
-            return z3.And(i <= n, cleaned(st.zh, i), st.zh["virtual"] == h0["virtual"], st.zh["has_refs"] == h0["has_refs"])
-        inv = {("Connection.connect", 0): dict(inv=inv0, modheap=["disconnected"], mod={"line": lambda nm: Ref(fresh(nm, I), g.Line)})}
+            return z3.And(i <= n, only_log_touched(st.zh))
+        inv = {("Connection.connect", 0): dict(inv=inv0, modheap=["disconnected", "has_refs", "vl_connected"], mod={"line": lambda nm: Ref(fresh(nm, I), g.Line)})}
         def owner(st):
             return st.attrs(s).get("_gfa")
+        def log_state(st):
+            return st.attrs(gfa).get("_new_virtual_lines")
         def post(kd, v, st):
             e = tuple(st.ghost.get("events", ()))
             own = owner(st)
-            untouched = z3.And(z3.BoolVal(own is None), st.zh["disconnected"] == h0["disconnected"])
+            lg = log_state(st)
+            log_untouched = z3.BoolVal(isinstance(lg, Opt) and lg.val is prior)
+            log_closed = z3.If(outer, z3.BoolVal(lg is None), log_untouched)
+            untouched = z3.And(z3.BoolVal(own is None), st.zh["disconnected"] == h0["disconnected"], log_untouched)
             if kd == "raise":
                 if e == ("is_connected",):
                     return z3.And(z3.BoolVal(v.cls is g.RuntimeError), connected, untouched)
                 if e == ("is_connected", "selfref_check"):
                     return z3.And(z3.BoolVal(v.cls is g.NotUniqueError), selfref, z3.Not(connected), untouched)
+                if e == ("is_connected", "selfref_check", "search"):
+                    # the identifier is known as that of a placeholder of ANOTHER record type: refused, nothing touched
+                    return z3.And(z3.BoolVal(v.cls is g.NotUniqueError), dup, dup_virtual, z3.Not(same_type), untouched)
                 if e == ("is_connected", "selfref_check", "search", "init_failed", "undo1", "undo2", "undo3", "undo4"):
-                    return z3.And(z3.BoolVal(v.cls is g.NotFoundError), z3.Not(init_ok), z3.Not(dup), z3.BoolVal(own is None), cleaned(st.zh, n))
+                    return z3.And(z3.BoolVal(v.cls is g.NotFoundError), z3.Not(init_ok), z3.Not(dup), z3.BoolVal(own is None), log_closed,
+                                  only_log_touched(st.zh), z3.Implies(z3.Not(outer), st.zh["disconnected"] == h0["disconnected"]))
                 return z3.BoolVal(False)
             if e == ("is_connected", "selfref_check", "search", "substitute"):
-                return z3.And(dup, dup_virtual, untouched)
+                return z3.And(dup, dup_virtual, same_type, untouched)
             if e == ("is_connected", "selfref_check", "search", "not_unique"):
                 return z3.And(dup, z3.Not(dup_virtual), untouched)
             if e == ("is_connected", "selfref_check", "search", "init", "register"):
-                return z3.And(z3.Not(dup), init_ok, z3.BoolVal(isinstance(own, Obj) and own.oid == gfa.oid), st.zh["disconnected"] == h0["disconnected"])
+                return z3.And(z3.Not(dup), init_ok, z3.BoolVal(isinstance(own, Obj) and own.oid == gfa.oid), st.zh["disconnected"] == h0["disconnected"], log_closed)
             return z3.BoolVal(False)
         return [Case("order", [s, gfa], post, pre=[n >= 0], heap=heap, zh=h0, models=models, invariants=inv,
-                     symbols=dict(already_connected=connected, refers_to_own_name=selfref, duplicate_found=dup, duplicate_is_virtual=dup_virtual, references_can_be_initialised=init_ok, n_lines=n),
+                     symbols=dict(already_connected=connected, refers_to_own_name=selfref, duplicate_found=dup, duplicate_is_virtual=dup_virtual, references_can_be_initialised=init_ok,
+                                  n_new_virtual_lines=n, no_other_line_is_being_connected=outer, placeholder_has_the_same_record_type=same_type),
                      replay=lambda w: {"target": "bounded.replay_helpers:connect_cases"},
                      confirm=battery_confirm, expect_paths=6)]
